@@ -97,6 +97,17 @@ func EncGo(x interface{}) any {
 		if v > -small && v < small {
 			return []any{"i", int(v)}
 		}
+		// an int64 in the neighbourhood of +-2^53, +-2^62, +-2^63: base + small offset
+		for _, bb := range []struct {
+			name string
+			at   int64 // the base (2^63 itself does not fit: MaxInt64 with offset -1)
+			adj  int64
+		}{{"p53", 1 << 53, 0}, {"n53", -(1 << 53), 0}, {"p62", 1 << 62, 0}, {"n62", -(1 << 62), 0}, {"p63", math.MaxInt64, -1}, {"n63", math.MinInt64, 0}} {
+			d := new(big.Int).Sub(big.NewInt(v), big.NewInt(bb.at))
+			if d.IsInt64() && d.Int64() >= -64 && d.Int64() <= 64 {
+				return []any{"I", bb.name, int(d.Int64() + bb.adj)}
+			}
+		}
 		return []any{"?", "i", strconv.FormatInt(v, 10)}
 	case float64:
 		switch {
@@ -108,6 +119,24 @@ func EncGo(x interface{}) any {
 			return []any{"F", "-inf"}
 		case v == 0 && math.Signbit(v):
 			return []any{"F", "-0"}
+		}
+		if math.Abs(v) >= small && v == math.Trunc(v) {
+			// a float64 whose value is exactly base + small offset
+			for _, bb := range []struct {
+				name string
+				exp  uint
+				neg  bool
+			}{{"p53", 53, false}, {"n53", 53, true}, {"p62", 62, false}, {"n62", 62, true}, {"p63", 63, false}, {"n63", 63, true}} {
+				base := new(big.Int).Lsh(big.NewInt(1), bb.exp)
+				if bb.neg {
+					base.Neg(base)
+				}
+				bf, _ := new(big.Float).SetFloat64(v).Int(nil)
+				d := new(big.Int).Sub(bf, base)
+				if d.IsInt64() && d.Int64() >= -64 && d.Int64() <= 64 {
+					return []any{"G", bb.name, int(d.Int64())}
+				}
+			}
 		}
 		if !math.IsInf(v, 0) && !math.IsNaN(v) {
 			r := new(big.Rat).SetFloat64(v)
